@@ -26,6 +26,9 @@ THEOREMS = [
     'IblVerif.C11.duration_matches',
     'IblVerif.C11.duration_close_std',
     'IblVerif.C11.cbin_exposed',
+    'IblVerif.C11.cbin_independent_of_ch_rate',
+    'IblVerif.C11.cbin_exposed_std',
+    'IblVerif.C11.cbin_ch_rate_counterexample',
     'IblVerif.C11.round_counterexample',
     'IblVerif.C11.offline_incomplete_meta_counterexample',
 ]
@@ -35,7 +38,9 @@ RULE = ('real files on disk: (channels nc, dtype, sampling-rate text, announced 
         'k+1/2, 3k+7 samples) x 2 rates x both readers; seeded random cases: nc in {1..8,16,32,64} (nidq meta, nSavedChans '
         'adjusted) and the 277/385-channel imec fixtures, r boundary-biased (0, 1, half-1, half, half+1, frame-1, random), '
         'rates 30000/2500/30000.123456/2500.05/30003.0003/random fractional/1/2/0.5 (exact ties), sparse files up to 2^40 '
-        'bytes, dtype int16/int32/int8, .cbin compressed with mtscomp under a .meta announcing fewer/more/equal samples, '
+        'bytes, dtype int16/int32/int8, .cbin compressed with mtscomp under a .meta announcing fewer/more/equal samples with the .ch '
+        'sample_rate equal to the meta rate, nominal-vs-calibrated (30000 vs 30003.0003 / 29999.757983 / 30000.390639481, streams long '
+        'enough for more than half a sample of drift, 1-2 channels) or grossly different (2500 vs 30000), '
         'OnlineReader on a growing file; the shipped recording-in-progress .meta (no fileTimeSecs/fileSizeBytes) under the '
         'OnlineReader at every kind of size. A case is non-trivial when the file has >= 1 frame and disagrees with its meta data '
         '(trailing bytes or announced length != frames present); distinct by the whole case description')
@@ -54,7 +59,8 @@ ASSUMPTIONS = [
     'exact, any nearest-integer function), no overflow/underflow; k < 2^50 frames offline, size < 2^40 bytes online',
     'values are compared through Reader[...] (float32 volts) against the file prefix scaled by the same NumPy expression '
     '(astype(float32) then *= sample2volts), channel order taken from Reader.raw_channel_order (sort=False)',
-    '.cbin: the compressed stream is intact (mtscomp lossless codec, shape from the .ch file); only the .meta disagrees',
+    '.cbin: the compressed stream is intact (mtscomp lossless codec, shape from the .ch file); the .meta disagrees in length and/or '
+    'in sampling rate (the .ch sample_rate is an input of the model that must not influence ns: cbin_independent_of_ch_rate)',
 ]
 TRUSTED = [
     'standard model of IEEE-754 binary64 rounding as stated in Analysis/OpenSizeRounding.lean (StdRounding; shown to hold for the '
@@ -148,7 +154,7 @@ class Built:
             self.samples.tofile(tmp)
             self.path = self.dir / (stem + '.cbin')
             with contextlib.redirect_stderr(io.StringIO()), contextlib.redirect_stdout(io.StringIO()):
-                mtscomp.compress(tmp, self.path, self.dir / (stem + '.ch'), sample_rate=float(c['fs']),
+                mtscomp.compress(tmp, self.path, self.dir / (stem + '.ch'), sample_rate=float(c.get('ch_fs') or c['fs']),
                                  n_channels=c['nc'], dtype=np.int16, check_after_compress=False,
                                  chunk_duration=c.get('chunk', 1.0), n_threads=1)
             tmp.unlink()
@@ -334,23 +340,67 @@ def _acquiring_cases(ctx, n):
     return out
 
 
+# (rate in the .meta, rate the stream was compressed with = sample_rate of the .ch header)
+RATE_PAIRS_CLOSE = [('30003.0003', '30000'), ('29999.757983', '30000'), ('30000.390639481', '30000'),
+                    ('2500.0325532900833', '2500'), ('30000', '30000.390639481'), ('2500.05', '2500')]
+RATE_PAIRS_GROSS = [('30000', '2500'), ('2500', '30000'), ('30003.0003', '2500'), ('250', '30000'), ('30000', '1')]
+
+
+def _cbin_case(rng, tpl, nc, fs, ch_fs, k, ck, chunk=None, iw=False):
+    claim = [k, k - 1, k + 1, max(k // 2, 0), 2 * k + 3, k + 0.5, int(rng.integers(0, 3 * k + 5)), k + 1000, max(k - 1000, 0)][ck]
+    if chunk is None:
+        chunk = float(rng.choice([1.0, 0.01, 0.003]))
+    if chunk * float(ch_fs) < 2:
+        chunk = max(1.0, 4 / float(ch_fs))
+    return _case(tpl, nc, fs, claim, k, 0, 'off', rng.integers(1 << 31), fmt='cbin', chunk=chunk, iw=iw, ch_fs=ch_fs)
+
+
 def _cbin_cases(ctx, n):
+    """.cbin streams under a .meta that announces fewer / more / as many samples; a third compressed at the meta rate,
+    the others at a different rate (nominal vs calibrated: long streams with few channels, so that the drift exceeds
+    half a sample; grossly different: any length)"""
     rng = ctx.rng
     out = []
     for i in range(n):
-        if rng.random() < 0.75:
-            tpl, nc = 'nidq', int(rng.choice([1, 2, 3, 5, 8, 16]))
-        else:
-            tpl, nc = str(rng.choice(['ap3A', 'np24', 'ap3B'])), 385
-        fs = str(rng.choice(['30000', '2500', '30000.123456', '2500.05', '30003.0003']))
-        k = int(np.exp(rng.uniform(0, np.log(60 if nc > 100 else 1500)))) + 1
-        ck = rng.integers(0, 7)
-        claim = [k, k - 1, k + 1, max(k // 2, 0), 2 * k + 3, k + 0.5, int(rng.integers(0, 3 * k + 5))][ck]
-        chunk = float(rng.choice([1.0, 0.01, 0.003]))
-        if chunk * float(fs) < 2:
-            chunk = 1.0
-        out.append(_case(tpl, nc, fs, claim, k, 0, 'off', rng.integers(1 << 31), fmt='cbin', chunk=chunk,
-                         iw=bool(rng.random() < 0.2)))
+        u = rng.random()
+        ck = int(rng.integers(0, 9))
+        iw = bool(rng.random() < 0.2)
+        if u < 0.3:        # same rate, all channel counts
+            if rng.random() < 0.75:
+                tpl, nc = 'nidq', int(rng.choice([1, 2, 3, 5, 8, 16]))
+            else:
+                tpl, nc = str(rng.choice(['ap3A', 'np24', 'ap3B'])), 385
+            fs = str(rng.choice(['30000', '2500', '30000.123456', '2500.05', '30003.0003']))
+            k = int(np.exp(rng.uniform(0, np.log(60 if nc > 100 else 1500)))) + 1
+            out.append(_cbin_case(rng, tpl, nc, fs, fs, k, ck, iw=iw))
+        elif u < 0.65:     # nominal vs calibrated rate: needs k * |fs/ch_fs - 1| >= 1/2
+            fs, ch_fs = RATE_PAIRS_CLOSE[int(rng.integers(0, len(RATE_PAIRS_CLOSE)))]
+            need = 0.5 / abs(float(fs) / float(ch_fs) - 1)
+            k = int(need * rng.uniform(1.05, 2.2)) + 1 if rng.random() < 0.8 else int(need * rng.uniform(0.2, 0.95)) + 1
+            out.append(_cbin_case(rng, 'nidq', int(rng.choice([1, 1, 2])), fs, ch_fs, min(k, 140000), ck, chunk=1.0, iw=iw))
+        else:              # grossly different rates: short streams
+            fs, ch_fs = RATE_PAIRS_GROSS[int(rng.integers(0, len(RATE_PAIRS_GROSS)))]
+            if rng.random() < 0.2:
+                tpl, nc = str(rng.choice(['ap3A', 'np24'])), 385
+            else:
+                tpl, nc = 'nidq', int(rng.choice([1, 2, 3, 5]))
+            k = int(np.exp(rng.uniform(0, np.log(40 if nc > 100 else 600)))) + (0 if rng.random() < 0.5 else 1)
+            out.append(_cbin_case(rng, tpl, nc, fs, ch_fs, max(k, 1), ck, iw=iw))
+    return out
+
+
+def _cbin_box():
+    """smallest .cbin inputs, for the search: 1..3 samples, announced one less / one more, same and different .ch rate"""
+    rng = np.random.default_rng(5)
+    out = []
+    for k in (1, 2, 3):
+        for ck in (1, 2, 0):
+            for fs, ch_fs in (('30000', '30000'), ('30000', '2500'), ('2500', '30000'), ('30003.0003', '30000')):
+                out.append(_cbin_case(rng, 'nidq', 1, fs, ch_fs, k, ck, chunk=1.0))
+    for fs, ch_fs in RATE_PAIRS_CLOSE:
+        need = int(0.5 / abs(float(fs) / float(ch_fs) - 1)) + 50
+        out.append(_cbin_case(rng, 'nidq', 1, fs, ch_fs, need, 1, chunk=1.0))
+        out.append(_cbin_case(rng, 'nidq', 1, fs, ch_fs, need, 2, chunk=1.0))
     return out
 
 
@@ -374,7 +424,7 @@ def _cases(ctx):
     cases = _box(ctx, (1, 2, 3, 4), (0, 1, 2, 3)) if ctx.quick else _box(ctx, (1, 2, 3, 4, 5, 6), (0, 1, 2, 3, 5))
     cases += _random_cases(ctx, ctx.n(900, 9000))
     cases += _acquiring_cases(ctx, ctx.n(60, 400))
-    cases += _cbin_cases(ctx, ctx.n(60, 500))
+    cases += _cbin_cases(ctx, ctx.n(120, 700))
     cases += _flat_cases(ctx, ctx.n(60, 400))
     # edge rows of the model's error branches (zero rate; empty file) — never judged by the oracle
     cases.append(_case('nidq', 3, '0', 1, 2, 1, 'off', 7))
@@ -392,7 +442,7 @@ def _model_line(c, b):
         return f'flat {c["reader"]} {c["nc"]} {c["flat_ns"]} {c["flat_fs"]} {b.isz} {b.nbytes}'
     fts = '-' if c['fts'] is None else str(_bits(float(c['fts'])))
     if c['fmt'] == 'cbin':
-        return f'cbin {c["nc"]} {_bits(float(c["fs"]))} {fts} {c["k"]} {c["nc"]}'
+        return f'cbin {c["nc"]} {_bits(float(c["fs"]))} {fts} {c["k"]} {c["nc"]} {_bits(float(c.get("ch_fs") or c["fs"]))}'
     return f'open {c["reader"]} {c["nc"]} {b.isz} {b.nbytes} {_bits(float(c["fs"]))} {fts}'
 
 
@@ -509,6 +559,12 @@ def _tags(c, outcome):
         t.append('meta-without-fileTimeSecs')
     if c.get('grow'):
         t.append('grown')
+    if c['fmt'] == 'cbin':
+        ch = float(c.get('ch_fs') or c['fs'])
+        rel = abs(float(c['fs']) / ch - 1)
+        t.append('ch_rate=meta' if rel == 0 else 'ch_rate~meta' if rel < 0.01 else 'ch_rate!=meta')
+        if rel and c['k'] * rel >= 0.5 and c['claim'] != c['k']:
+            t.append('cbin-drift>=half-sample')
     return tuple(t)
 
 
@@ -632,6 +688,9 @@ def oracle(c):
         except Exception as e:   # noqa
             return f'opening raised {type(e).__name__}: {e}'
         if int(sr.ns) != present:
+            if c['fmt'] == 'cbin':
+                return (f'ns = {int(sr.ns)} but the compressed stream holds {present} samples (.ch sample_rate '
+                        f'{c.get("ch_fs") or c["fs"]}, meta rate {c["fs"]}, meta announces {c["claim"]:g} samples)')
             return f'ns = {int(sr.ns)} but the file holds {present} complete frames ({b.nbytes} bytes, frame {nc * b.isz})'
         if tuple(int(x) for x in sr.shape) != (present, nc):
             return f'shape = {tuple(sr.shape)}, expected {(present, nc)}'
@@ -676,7 +735,7 @@ def _size_key(c):
 
 def search(ctx, reasons):
     cands = [m['case'] for m in ctx.mismatches[:60] if isinstance(m.get('case'), dict) and 'tpl' in m['case']]
-    cands += _box(ctx, (1, 2, 3), (1, 2, 3))
+    cands += _box(ctx, (1, 2, 3), (1, 2, 3)) + _cbin_box()
     rng = ctx.subrng(12)
 
     class _R:
